@@ -87,6 +87,11 @@ fn is_content_length(headers: &HeaderMap) -> Result<Option<u64>> {
 }
 
 impl BodyReader {
+    /// A reader for a response that has no body.
+    pub fn empty(reader: BufReader<BaseStream>) -> BodyReader {
+        BodyReader::Length(reader.take(0))
+    }
+
     pub fn new(headers: &HeaderMap, reader: BufReader<BaseStream>) -> Result<BodyReader> {
         if is_chunked(headers) {
             debug!("creating a chunked body reader");
